@@ -25,7 +25,7 @@ def masks_upto(k, width=13):
 # -------------------------------------------------------------------------------------------------
 # T
 
-def premise_tables(ctx, rule="T", mode="exact"):
+def premise_tables(ctx, rule="T", mode="exact", zero_from=2):
     """mode 'exact': every reachable cell equals the oracle ordinal (C01, C02);
     'category': every reachable cell lies in the oracle's category range (C13);
     'shape': lengths, ascending products, zero cells for fewer than five ranks (C05)."""
@@ -60,7 +60,9 @@ def premise_tables(ctx, rule="T", mode="exact"):
             rep.ob(rule + ".unique5", "mask %#06x" % m, ok, "UNIQUE_5[%d] = %s, the straight/high-card class with these ranks has %s" % (m, U5[m] if m < len(U5) else "out of range", what % v), where + "/unique5.snip")
             n += 1
     nz = 0
-    for m in masks_upto(4):
+    for m in ([] if mode == "lengths" else masks_upto(4)):
+        if bin(m).count("1") < zero_from:
+            continue   # not reachable by the hands this property speaks about (five real cards show at least two ranks)
         ok = m < len(U5) and U5[m] == 0
         rep.ob(rule + ".unique5-zero", "mask %#06x" % m, ok, "UNIQUE_5[%d] = %s must be 0: fewer than five distinct ranks have to fall through to the product search" % (m, U5[m] if m < len(U5) else "out of range"), where + "/unique5.snip")
         nz += 1
@@ -79,7 +81,7 @@ def premise_tables(ctx, rule="T", mode="exact"):
     if mode == "exact":
         allv = set(flushes.values()) | set(unique5.values()) | {VA[j] for j in range(len(VA))}
         rep.ob(rule + ".onto", "1..=7462", allv >= set(range(1, 7463)), "values never produced: %s" % sorted(set(range(1, 7463)) - allv)[:5], where)
-        rep.floor(rule + ".cells", n + nz, 1287 + 1287 + 1093 + 4888)
+        rep.floor(rule + ".cells", n + nz, 1287 + 1287 + 1079 + 4888)
     rep.sample({"rule": rule, "mode": mode, "flush_cells": len(flushes), "unique5_cells": len(unique5), "zero_cells": nz, "products": len(PR),
                 "example": {"FLUSHES[0x1F00]": FL[0x1F00] if len(FL) > 0x1F00 else None}})
     return FL, U5, PR, VA
@@ -977,7 +979,7 @@ def discharge_residual_obligations(ctx, fac, rule, max_ranks, PR, extra_env=None
 # -------------------------------------------------------------------------------------------------
 # V: uniqueness tests
 
-def premise_unique(ctx, path, n, rule="V.are_unique"):
+def premise_unique(ctx, path, n, rule="V.are_unique", semantic=True):
     """are_unique touches the slots only through comparisons; folded over every equality / order pattern it equals
     `all slots distinct` (for words below u32::MAX, which covers every card)."""
     rep, pdb = ctx.rep, ctx.pdb
@@ -988,6 +990,23 @@ def premise_unique(ctx, path, n, rule="V.are_unique"):
     names = ["s%d" % i for i in range(n)]
     ok, why = comparison_only(dag, set(names))
     if not ok:
+        if not semantic:
+            # only panic-freedom is asked for: fold the panic sites over card-or-blank hands of every coincidence pattern
+            words = ctx.words53()
+            for o in sm.obligations:
+                okall = True
+                if o.cond[0] == "c":
+                    okall = bool(o.cond[1])
+                else:
+                    for t in set_partition_orderings(n)[:300]:
+                        env = {nm: words[(3 * r) % 53] for nm, r in zip(names, t)}
+                        try:
+                            if all(cval(evaluate(pdb, c, env)) for c in o.pc) and not cval(evaluate(pdb, o.cond, env)):
+                                okall = False
+                        except IndexError:
+                            okall = False
+                rep.ob(rule + ".no-panic", "%s %s L%s" % (short(o.fn), o.kind, o.line), okall, "assert can fail for some card-or-blank hand", pdb.where(o.fn))
+            return
         rep.uncertified(rule, "%s::are_unique: %s" % (short(path), why), pdb.where(key))
         return
     # constants the slots (or their order statistics) are compared with
@@ -1010,7 +1029,8 @@ def premise_unique(ctx, path, n, rule="V.are_unique"):
         if got != exp:
             nb += 1
             bad = bad or t
-    rep.ob(rule, short(path), nb == 0, "%s::are_unique is wrong on %d of %d equality/order patterns of the slots, e.g. slots ranked %s (equal ranks = equal words)" % (short(path), nb, len(orders), list(bad) if bad else ""), pdb.where(key))
+    if semantic:
+        rep.ob(rule, short(path), nb == 0, "%s::are_unique is wrong on %d of %d equality/order patterns of the slots, e.g. slots ranked %s (equal ranks = equal words)" % (short(path), nb, len(orders), list(bad) if bad else ""), pdb.where(key))
     # its own panic sites hold for arbitrary words
     for o in sm.obligations:
         if o.cond[0] == "c":
@@ -1133,6 +1153,19 @@ def mask_ranks(m):
 # -------------------------------------------------------------------------------------------------
 # best-of loop of Six / Seven (C02, C03, C09)
 
+def value_only_opaque(ctx, k5v, need=None):
+    """Functions left uninterpreted when only the *value* half of six/seven ranking matters: the five-card ranking
+    itself and (unless the witness clauses are asked for) the final sort of the reported hand."""
+    op = {k5v}
+    if need is None or not ({"witness-sorted", "witness-follows-value"} & set(need)):
+        try:
+            ks, _ = ctx.method(FIVE, "sort", HV)
+            op.add(ks)
+        except Uncertified:
+            pass
+    return op
+
+
 def perm_table_name(path):
     return path + "::FIVE_CARD_PERMUTATIONS"
 
@@ -1146,13 +1179,14 @@ def bestof_loop(ctx, path, n, rule, need):
         if name == "loop-shape" and not ok:
             # the best-of analysis needs one candidate loop (or one reduction); anything else is not certified
             return rep.ob(rule + "." + name, inst, ok, "UNCERTIFIED: " + detail + " — the best-of rule cannot be applied to this shape", where_)
-        if name in need or name == "loop-shape":
+        if name in need or name == "loop-shape" or (not ok and name in ("result", "result-is-running-best", "ranks-one-candidate", "candidate-is-five")):
+            # structural prerequisites of every other clause are always recorded when they fail
             return rep.ob(rule + "." + name, inst, ok, detail, where_)
         return ok
     key, sty = ctx.method(path, "hand_rank_value_and_hand", HR)
     k5v, _ = ctx.method(FIVE, "hand_rank_value", HR)
     where = pdb.where(key)
-    ex = Exec(pdb, contracts={FIP: fip_contract}, opaque={k5v})
+    ex = Exec(pdb, contracts={FIP: fip_contract}, opaque=value_only_opaque(ctx, k5v, need))
     rep.fn(key)
     cfg = ex.cfg(key)
     if len(cfg.loops) == 0:
@@ -1228,9 +1262,9 @@ def bestof_loop(ctx, path, n, rule, need):
     ob("result-is-running-best", short(path), l_best is not None, "the returned value is not the running best value of the loop", where)
     # witness: descending sort of the remembered hand
     l_hand = None
-    wit = arr_of(retv[2][1])
+    wit = arr_of(retv[2][1]) if retv[2][1][0] == "agg" else None
     for l, a in names.items():
-        if a[0] == "agg" and wit is not None:
+        if a[0] == "agg":
             batoms = [x[1] for x in arr_of(a)]
             if set(atoms_of(retv[2][1])) == set(batoms):
                 l_hand = l
@@ -1252,8 +1286,11 @@ def bestof_loop(ctx, path, n, rule, need):
                 break
         rep.evals(541)
     ob("witness-sorted", short(path), okw, wit_msg, where)
-    if l_best is None or l_hand is None:
+    if l_best is None:
         return None
+    if l_hand is None:
+        # the remembered hand could not be identified: the witness clauses cannot be checked, the value clauses can
+        ob("witness-follows-value", short(path), False, "UNCERTIFIED: cannot identify the remembered best hand among the loop-carried state", where)
     ob("initial-best", short(path), frame0[l_best][0] == "c" and frame0[l_best][1] == 0, "the running best value does not start at 0 (no hand yet)", where)
     # one generic iteration
     s_it, names = sym_state([row])
@@ -1267,12 +1304,13 @@ def bestof_loop(ctx, path, n, rule, need):
     else:
         ob("no-early-exit", short(path), True)
     if h not in outs:
+        ob("loop-shape", short(path), False, "an iteration of the candidate loop never comes back to the loop header", where)
         return None
     g_back, st2 = outs[h]
     fr2 = st2.frames[fid]
-    best2, hand2 = fr2[l_best], fr2[l_hand]
+    best2, hand2 = fr2[l_best], (fr2[l_hand] if l_hand is not None else None)
     calls = [x for x in walk(best2) if x[0] == "call" and x[1] == "fn:" + k5v]
-    calls_h = [x for x in walk(hand2) if x[0] == "call" and x[1] == "fn:" + k5v]
+    calls_h = [x for x in walk(hand2) if x[0] == "call" and x[1] == "fn:" + k5v] if hand2 is not None else []
     ok_one = len({id(x) for x in calls + calls_h}) == 1
     ob("ranks-one-candidate", short(path), ok_one, "an iteration ranks %d distinct candidate hands (must rank exactly the selected one, once)" % len({id(x) for x in calls + calls_h}), where)
     if not ok_one:
@@ -1286,7 +1324,7 @@ def bestof_loop(ctx, path, n, rule, need):
     ob("value-only-update", short(path), not stray,
        "the new best value depends on %s besides the best so far and the ranking of the current candidate (state carried between iterations, or the candidate's words read directly)" % stray, where)
     # decision table over the order types of (best so far, candidate value)
-    batoms = [x[1] for x in arr_of(names[l_hand])]
+    batoms = [x[1] for x in arr_of(names[l_hand])] if l_hand is not None else []
     base_env = {"s%d" % i: 100 + i for i in range(n)}
     base_env.update({"p%d" % j: j for j in range(5)})
     base_env.update({nm: 200 + j for j, nm in enumerate(batoms)})
@@ -1307,6 +1345,8 @@ def bestof_loop(ctx, path, n, rule, need):
                 expv = xv if (xv != 0 and xv < bv_) else bv_
             if gotv != expv:
                 badv = badv or (bv_, xv, gotv, expv)
+            if hand2 is None:
+                continue
             goth = [cval(x) for x in arr_of(evaluate(pdb, hand2, env))]
             cand_v = [cval(x) for x in arr_of(evaluate(pdb, cand, env))]
             old_v = [200 + j for j in range(5)]
@@ -1377,7 +1417,7 @@ def bestof_reduction(ctx, path, n, rule, need, ob, key, sty, k5v):
     rep, pdb = ctx.rep, ctx.pdb
     where = pdb.where(key)
     hand = ctx.hand(path, n)
-    ex = Exec(pdb, contracts={FIP: fip_contract}, opaque={k5v})
+    ex = Exec(pdb, contracts={FIP: fip_contract}, opaque=value_only_opaque(ctx, k5v, need))
     st = State()
     href = ex.new_tmp(st, hand)
     ret, st2 = ex.summarise(key, [href], sty, st)
@@ -1627,7 +1667,7 @@ def bestof_end_to_end(ctx, path, n, rule, need):
     rep, pdb = ctx.rep, ctx.pdb
     key, sty = ctx.method(path, "hand_rank_value_and_hand", HR)
     k5v, _ = ctx.method(FIVE, "hand_rank_value", HR)
-    sm = ctx.summ(key, [("r", ctx.hand(path, n))], sty, opaque={k5v})
+    sm = ctx.summ(key, [("r", ctx.hand(path, n))], sty, opaque=value_only_opaque(ctx, k5v, need))
     ret = sm.ret
     if ret[0] != "agg" or len(ret[2]) != 2:
         return
@@ -1656,14 +1696,14 @@ def bestof_end_to_end(ctx, path, n, rule, need):
         env = dict(slotv)
         env["$fn:" + k5v] = h
         env["$contract:find_in_products"] = lambda k: C(0, "usize")
-        out = evaluate(pdb, ret, env)
-        gotv = cval(out[2][0])
+        gotv = cval(evaluate(pdb, ret[2][0], env))
+        out = None
         nz = [v for v in vals.values() if v != 0]
         expv = min(nz) if nz else 0
         if gotv != expv:
             badv = badv or (r_, gotv, expv)
-        if expv != 0 and gotv == expv:
-            goth = [cval(x) for x in arr_of(out[2][1])]
+        if expv != 0 and gotv == expv and "witness-follows-value" in need:
+            goth = [cval(x) for x in arr_of(evaluate(pdb, ret[2][1], env))]
             winners = [sorted((slotv["s%d" % i] for i in sset), reverse=True) for sset, v in vals.items() if v == expv]
             if goth not in winners:
                 badw = badw or (r_, goth)
@@ -1879,7 +1919,7 @@ def check_C04(ctx):
                 rep.ob("V.no-panic", "%s %s L%s" % (short(o.fn), o.kind, o.line), okk, "panic site on the validity path is not trivially safe", pdb.where(o.fn))
     ctx.guard("V.no-panic", nopanic)
     # on the valid edge the hand is made of distinct real cards: ranking returns (and is non-zero) by C01's premises
-    tabs = ctx.guard("T", premise_tables, ctx, "T", "shape")
+    tabs = ctx.guard("T", premise_tables, ctx, "T", "lengths")
     premise_search(ctx, "S", want_gap=False)
     fac = ctx.guard("F", premise_factor, ctx)
     if fac and tabs:
@@ -1909,7 +1949,7 @@ def check_C05(ctx):
         rep.ob("C05.slot-abstraction", "no bits above the rank field", all(w >> 29 == 0 for w in ws), "a card constant has bits above the rank field")
         rep.ob("C05.slot-abstraction", "6-bit prime field", all((w & 0xFF) < 64 for w in ws), "a card constant has a prime field above 63")
     ctx.guard("C05.slot-abstraction", slotfacts)
-    tabs = ctx.guard("T", premise_tables, ctx, "T", "shape")
+    tabs = ctx.guard("T", premise_tables, ctx, "T", "shape", 0)
     res = premise_search(ctx, "S", want_gap=True)
     fac = ctx.guard("F", premise_factor, ctx, "F", False)
     PR = tabs[2] if tabs else None
@@ -2015,7 +2055,7 @@ def check_C05(ctx):
                                         break
                                 rep.evals(53 ** len(ats))
                     rep.ob("C05.panic-site.entry", "%s::%s %s %s L%s" % (short(path), meth, short(o.fn), o.kind, o.line), okk, "panic site %s in %s" % (o.kind, short(o.fn)), pdb.where(o.fn))
-            ctx.guard("V.are_unique." + short(path), premise_unique, ctx, path, n, "C05.are_unique")
+            ctx.guard("V.are_unique." + short(path), premise_unique, ctx, path, n, "C05.are_unique", False)
     ctx.guard("C05.entries", entries)
     # build profile without overflow checks
     if ctx.tier == "thorough" and ctx.pdb_unchecked is not None:
@@ -2128,7 +2168,7 @@ def suit_blind_selection(ctx):
     k5v, _ = ctx.method(FIVE, "hand_rank_value", HR)
     for path, n in ((SIX, 6), (SEVEN, 7)):
         key, sty = ctx.method(path, "hand_rank_value_and_hand", HR)
-        sm = ctx.summ(key, [("r", ctx.hand(path, n))], sty, opaque={k5v})
+        sm = ctx.summ(key, [("r", ctx.hand(path, n))], sty, opaque=value_only_opaque(ctx, k5v))
         val = sm.ret[2][0] if sm.ret[0] == "agg" else sm.ret
         slots = {"s%d" % i for i in range(n)}
         direct = set()
